@@ -193,7 +193,7 @@ impl<'a> Gen<'a> {
 
     fn lambda(&mut self, self_name: Option<&str>) -> E {
         let p = (*self.rng.pick(&["x", "n", "a", "b", "k"])).to_string(); // may shadow a bound name
-        match self.rng.below(8) {
+        match self.rng.below(10) {
             0 | 1 if self_name.is_some() => {
                 // self-recursive
                 let me = self_name.unwrap();
@@ -221,6 +221,16 @@ impl<'a> Gen<'a> {
                 let q = self.any_name();
                 lam(&[&p], doblk(vec![assign(&q, bin("*", id(&p), num(2)))], id(&q)))
             }
+            7 => {
+                // closure factory whose inner function re-defines, inside a do-block, a name it
+                // also reads from the enclosing function (its parameter)
+                let inner = match self.rng.below(3) {
+                    0 => doblk(vec![assign(&p, bin("+", id(&p), id("m")))], id(&p)),
+                    1 => doblk(vec![assign("y", bin("*", id(&p), id("m"))), assign(&p, num(0))], E::List(vec![id("y"), id(&p)])),
+                    _ => doblk(vec![assign("t", id(&p))], doblk(vec![assign(&p, bin("+", id("t"), id("m")))], id(&p))),
+                };
+                E::Lam(vec![Arg::Req(p.clone())], Box::new(lam(&["m"], inner)))
+            }
             _ => lam(&[&p], bin("+", id(&p), num(1))),
         }
     }
@@ -247,6 +257,12 @@ impl<'a> Gen<'a> {
         ];
         let k = self.rng.pick_weighted(&w);
         match k {
+            0 if self.rng.chance(1, 5) && self.bound_of(&[Ty::Fun]).is_some() => {
+                let n = self.free_name().unwrap_or_else(|| self.any_name());
+                let f = self.bound_of(&[Ty::Fun]).unwrap();
+                self.bound.entry(n.clone()).or_insert(Ty::Fun);
+                (Stmt::Expr(assign(&n, call(id(&f), vec![self.small_num()]))), "bind-call-result")
+            }
             0 => {
                 let n = self.free_name().unwrap_or_else(|| self.any_name());
                 let (e, ty) = if self.rng.chance(1, 3) { (self.reader(), Ty::Num) } else { self.data(0) };
@@ -678,6 +694,21 @@ pub fn gen_scenario(rng: &mut Rng) -> Scenario {
         let l = g.lambda(Some(name));
         g.bound.insert(name.to_string(), Ty::Fun);
         stmts.push(SStmt { stmt: Stmt::Expr(assign(name, l)), kind: "bind-lambda".into() });
+    }
+    // some start with a closure factory and a function made by it (what that function captured
+    // must not depend on later top-level bindings of the same names)
+    if g.rng.chance(1, 6) {
+        let pn = *g.rng.pick(&["a", "b", "c", "d"]);
+        let inner = match g.rng.below(3) {
+            0 => doblk(vec![assign(pn, bin("+", id(pn), id("m")))], id(pn)),
+            1 => doblk(vec![assign("y", bin("*", id(pn), id("m"))), assign(pn, num(0))], E::List(vec![id("y"), id(pn)])),
+            _ => bin("+", id(pn), id("m")),
+        };
+        let fname = if g.bound.contains_key("f") { "g" } else { "f" };
+        g.bound.insert(fname.to_string(), Ty::Fun);
+        stmts.push(SStmt { stmt: Stmt::Expr(assign(fname, E::Lam(vec![Arg::Req(pn.to_string())], Box::new(lam(&["m"], inner))))), kind: "bind-lambda".into() });
+        g.bound.insert("fs".to_string(), Ty::Fun);
+        stmts.push(SStmt { stmt: Stmt::Expr(assign("fs", call(id(fname), vec![num(10)]))), kind: "bind-call-result".into() });
     }
     // ... and about a third start with a long list and a record, the operands of in-place hazards
     if g.rng.chance(1, 3) {
